@@ -6,7 +6,7 @@ use bevy_cobweb::prelude::*;
 use std::cell::RefCell;
 
 #[derive(Copy, Clone, Debug, PartialEq)]
-pub enum K { F, N, S }
+pub enum K { F, N, S, O }
 
 #[derive(Copy, Clone, Debug)]
 pub struct Call { kind: K, key: usize, input: u32 }
@@ -39,8 +39,8 @@ thread_local! { static SH: RefCell<Sh> = RefCell::new(Sh::default()); }
 fn log(l: String) { SH.with(|s| s.borrow_mut().out.push(l)); }
 
 fn num<T: std::str::FromStr>(t: &str) -> Option<T> { if t.is_empty() || !t.chars().all(|c| c.is_ascii_digit()) { None } else { t.parse().ok() } }
-fn kind(t: &str) -> Option<K> { match t { "f" => Some(K::F), "n" => Some(K::N), "s" => Some(K::S), _ => None } }
-fn kname(k: K) -> &'static str { match k { K::F => "f", K::N => "n", K::S => "s" } }
+fn kind(t: &str) -> Option<K> { match t { "f" => Some(K::F), "n" => Some(K::N), "s" => Some(K::S), "o" => Some(K::O), _ => None } }
+fn kname(k: K) -> &'static str { match k { K::F => "f", K::N => "n", K::S => "s", K::O => "o" } }
 fn parse_call(t: &[&str]) -> Option<Call> { match t { [k, key, x] => Some(Call{ kind: kind(k)?, key: num(key)?, input: num(x)? }), _ => None } }
 fn parse_op(t: &[&str]) -> Option<Op>
 {
@@ -108,6 +108,7 @@ fn do_call(world: &mut World, c: Call) -> Option<u32>
     let excl = match c.kind
     {
         K::F | K::N => script(c.kind, c.key, 0).0,
+        K::O => script(K::F, c.key, 0).0,
         K::S => false,
     };
     match c.kind
@@ -115,6 +116,12 @@ fn do_call(world: &mut World, c: Call) -> Option<u32>
         K::F =>
         {
             macro_rules! m { ($n:literal) => { if excl { Some(syscall(world, c.input, sys_x::<0, $n>)) } else { Some(syscall(world, c.input, sys_o::<0, $n>)) } }; }
+            dispatch4!(c.key, m)
+        }
+        K::O =>
+        {
+            // `syscall_once` with the very function items `syscall` uses for this key: fresh state, nothing cached
+            macro_rules! m { ($n:literal) => { if excl { Some(world.syscall_once(c.input, sys_x::<0, $n>)) } else { Some(world.syscall_once(c.input, sys_o::<0, $n>)) } }; }
             dispatch4!(c.key, m)
         }
         K::N =>
